@@ -1,10 +1,56 @@
-(* C05 -- placeholder until the proofs land *)
-From Tola Require Import Py.Base Model.Fragment Model.Fasta Model.AgpTpf.
+(* C05 -- AGP and TPF parse/format round-trip without loss.
+   Only statements, each closed by [exact] of a lemma from Proofs/AgpTpfRoundTrip.v. *)
+From Tola Require Import Py.Base Model.Fragment Model.Fasta Model.AgpTpf Model.AgpTpfSpec
+  Proofs.AgpTpfRoundTrip.
 
-Lemma C05_format_example :
-  format_agp (mkAsm [] [(s "s1", [RF (mkFrag (-1) (s "c") 5 9 (-1) [s "Painted"]); RG (mkGap 200 (s "scaffold"))])])
-  = Ok (s "s1	1	5	1	W	c	5	9	-	Painted
-s1	6	205	2	U	200	scaffold	yes	proximity_ligation
-").
-Proof. vm_compute. reflexivity. Qed.
-Print Assumptions C05_format_example.
+(* formatting any well-formed assembly as AGP and parsing it back yields the
+   same header lines, scaffolds, rows, coordinates, strands, tags, gap lengths
+   and gap types (agp_wf: Model/AgpTpfSpec.v) *)
+Theorem C05_parse_format_agp : forall a, agp_wf a ->
+  exists t, format_agp a = Ok t /\ parse_agp t = Ok a.
+Proof. exact parse_format_agp. Qed.
+Print Assumptions C05_parse_format_agp.
+
+(* re-formatting parsed canonical AGP text reproduces it byte for byte *)
+Theorem C05_format_parse_agp : forall a t, agp_wf a -> format_agp a = Ok t ->
+  exists a', parse_agp t = Ok a' /\ format_agp a' = Ok t.
+Proof. exact format_parse_agp. Qed.
+Print Assumptions C05_format_parse_agp.
+
+(* the same for TPF for what TPF can carry (no tags, strands PLUS/MINUS,
+   non-negative coordinates, every scaffold starting with a fragment, gap types
+   the TYPE-2/TYPE-3/upper-case-dash tables map back to themselves) *)
+Theorem C05_parse_format_tpf : forall a, tpf_wf a ->
+  exists t, format_tpf a = Ok t /\ parse_tpf t = Ok a.
+Proof. exact parse_format_tpf. Qed.
+Print Assumptions C05_parse_format_tpf.
+
+(* converting to TPF and back changes nothing except dropping tags *)
+Theorem C05_agp_tpf_agp : forall a, agp_wf a -> tpf_wf (drop_tags a) ->
+  exists t, format_tpf a = Ok t /\ parse_tpf t = Ok (drop_tags a).
+Proof. exact agp_tpf_agp. Qed.
+Print Assumptions C05_agp_tpf_agp.
+
+(* every non-blank, non-comment line yields exactly one row (or the parse is
+   an error): no line is silently skipped or merged *)
+Theorem C05_agp_rows_eq_lines : forall t a, parse_agp t = Ok a -> n_rows a = length (data_lines t).
+Proof. exact parse_agp_rows_eq_lines. Qed.
+Print Assumptions C05_agp_rows_eq_lines.
+
+Theorem C05_tpf_rows_eq_lines : forall t a, parse_tpf t = Ok a -> n_rows a = length (data_lines t).
+Proof. exact parse_tpf_rows_eq_lines. Qed.
+Print Assumptions C05_tpf_rows_eq_lines.
+
+Theorem C05_gap_type_tables :
+  tpf_gap_type_in (tpf_gap_type_out (s "scaffold")) = s "scaffold"
+  /\ tpf_gap_type_in (tpf_gap_type_out (s "contig")) = s "contig"
+  /\ tpf_gap_type_in (tpf_gap_type_out (s "short_arm")) = s "short_arm"
+  /\ tpf_gap_type_out (s "scaffold") = s "TYPE-2"
+  /\ tpf_gap_type_out (s "contig") = s "TYPE-3".
+Proof. exact gap_type_roundtrip_examples. Qed.
+Print Assumptions C05_gap_type_tables.
+
+(* non-vacuity: concrete assemblies meeting the hypotheses *)
+Theorem C05_wf_satisfiable : agp_wf ex_agp /\ tpf_wf ex_tpf /\ agp_wf ex_both /\ tpf_wf (drop_tags ex_both).
+Proof. exact (conj ex_agp_wf (conj ex_tpf_wf ex_both_wf)). Qed.
+Print Assumptions C05_wf_satisfiable.
